@@ -517,6 +517,63 @@ pub fn run(tier: &str, seed: u64) -> i32 {
         |c, ctx| check_case(c, ctx),
     );
     report.add(st);
+    // substitute rules of every form on every use site (C07's driver; a substituted type is not emitted, so a
+    // rule that is silently abandoned leaves a dangling path), and generic definitions generated WITHOUT a
+    // compact / bits path (generation fails there or the module is closed: a failing generic argument must not
+    // simply be dropped)
+    {
+        let (all, _, _) = enumerate(&crate::checks::c07::DSubst, 3, 1_000_000);
+        let mut cases: Vec<Case> = all
+            .iter()
+            .filter(|(_, s)| s.use_.is_some() && s.rule.is_some())
+            // supported settings only: a rule whose target mentions a source parameter for which the type has no
+            // (non-skipped) argument leaves that name in the output - the rule does not fit the type
+            .filter(|(_, s)| {
+                use crate::checks::c07::SForm;
+                let arity = match s.sform {
+                    SForm::Plain => 0,
+                    SForm::One | SForm::TwoSecondSkipped => 1,
+                    SForm::Two | SForm::BTreeMap => 2,
+                };
+                let (g, t) = crate::checks::c07::rule_forms()[s.rule.unwrap()];
+                let names: Vec<&str> = g.trim_matches(|c| c == '<' || c == '>').split(',').map(|x| x.trim()).filter(|x| !x.is_empty()).collect();
+                let toks: Vec<&str> = t.split(|c: char| !(c.is_alphanumeric() || c == '_')).collect();
+                !s.second && names.iter().enumerate().all(|(i, n)| i < arity || !toks.contains(n))
+            })
+            .map(|(_, s)| Case::new(RegSrc::Prog(s.program()), s.spec(), "D-subst"))
+            .collect();
+        let dg = crate::families::DGeneric {
+            max_fields: 1,
+            max_insts: 2,
+            include_cf3: false,
+            body_forms: crate::families::ALL_BODY_FORMS.to_vec(),
+            param_forms: vec![crate::families::ParamForm::One, crate::families::ParamForm::BitsSO],
+        };
+        let (gall, _, _) = enumerate(&dg, 2, 1_000_000);
+        for (_, gs) in &gall {
+            if !crate::checks::c05::wf5_ok(gs) {
+                continue;
+            }
+            for which in 0..2 {
+                let mut spec = SettingsSpec::faithful();
+                if which == 0 {
+                    spec.compact_path = None;
+                } else {
+                    spec.bits_path = None;
+                }
+                let mut c = Case::new(RegSrc::Prog(gs.program()), spec, if which == 0 { "D-generic, no compact path" } else { "D-generic, no bits path" });
+                c.dedup = true;
+                cases.push(c);
+            }
+        }
+        report.add(sweep(
+            "D-subst(substitute rules of every form x every use site) + D-generic(depth <= 2) without a compact / bits path",
+            &cases,
+            Duration::from_secs(if thorough { 300 } else { 120 }),
+            |c| json!({"case": c.note, "reg": c.reg.describe()}),
+            |c, ctx| check_case(c, ctx),
+        ));
+    }
     {
         match compile_tier(seed, !thorough) {
             Ok(st) => report.add(st),
